@@ -301,6 +301,10 @@ func (g *Gen) Next(w *World, step int) string {
 			add(0.3, func() string {
 				return g.bindLine(w, id.ns, id.name, g.conf.Nodes[rng.Intn(len(g.conf.Nodes))].Name)
 			})
+			add(0.8, func() string { // the scheduler asks which nodes remain candidates for a preemptor
+				f, _ := g.fault(w, true)
+				return fmt.Sprintf("preempt %s %s n1,n2,n3,n4 ? ? %d", id.ns, id.name, f)
+			})
 		}
 		if bound {
 			add(0.4, func() string {
